@@ -1,5 +1,5 @@
 (* C06 - a whole step: what the model buffers, the sum -> count normalisation, and the final theorems' lemmas. *)
-Require Import V.Lib.Base V.Lib.Calls V.Lib.Dec V.Gen.Consts_C06 V.C06.Model V.C06.RefParse V.C06.Spec V.C06.ProofsLex V.C06.ProofsParse.
+Require Import V.Lib.Base V.Lib.Calls V.Lib.Dec V.Gen.Consts_C06 V.C06.Model V.C06.RefParse V.C06.Spec V.C06.ProofsLex V.C06.ProofsTerm V.C06.ProofsParse V.C06.ProofsTheory.
 Require Import ZifyBool.
 Local Open Scope Z_scope.
 
@@ -60,11 +60,19 @@ Proof.
   destruct (sat_lit X (lit_of a)); lia.
 Qed.
 
-(* ---------- good names: Prop and bool ---------- *)
+(* ---------- good names ---------- *)
 Lemma good_name_b n : good_name n <-> good_nameb n = true.
 Proof. reflexivity. Qed.
-Lemma names_ok_good nm : names_ok nm -> names_good nm.
-Proof. intros H a s E. apply good_name_b. now apply (H a). Qed.
+(* the theory-free special case of the name-table invariant *)
+Lemma names_ok_ok2 nm : names_ok nm -> names_ok2 nm.
+Proof. intros H a s E. exists (PN s). split; [now apply (H a) | reflexivity]. Qed.
+
+(* directive calls are judged by call_ok, theory calls are judged in the state they are made in (Spec.tcall_ok) *)
+Definition dcall_ok (c : call) : Prop :=
+  match c with
+  | CTNum _ _ | CTSym _ _ | CTComp _ _ _ | CTElem _ _ _ | CTAtom _ _ _ | CTAtomG _ _ _ _ _ => True
+  | _ => call_ok c
+  end.
 
 (* ---------- what the model buffers for the directive calls of a step ---------- *)
 Fixpoint feed (nm : names_t) (cs : list call) : list dir * names_t :=
@@ -106,8 +114,8 @@ Qed.
 Lemma stmt_equiv_refl s : stmt_equiv s s.
 Proof. destruct s as [c h [l|bd l]| | | | | | |]; simpl; try reflexivity; repeat split. Qed.
 
-Lemma feed_spec cs : Forall call_ok cs -> forall nm, names_ok nm ->
-  Forall dir_ok (fst (feed nm cs)) /\ names_ok (snd (feed nm cs)) /\
+Lemma feed_spec cs : Forall dcall_ok cs -> forall nm, names_ok2 nm ->
+  Forall dir_ok (fst (feed nm cs)) /\ names_ok2 (snd (feed nm cs)) /\
   snd (feed nm cs) = snd (expected nm cs) /\
   Forall2 stmt_equiv (fst (expected nm cs)) (map stmt_of_dir (fst (feed nm cs))).
 Proof.
@@ -115,24 +123,24 @@ Proof.
   assert (Hcons : forall d s, dir_ok d -> stmt_of_call c = Some s -> stmt_equiv s (stmt_of_dir d) ->
             (match c with COutput _ _ => False | _ => True end) ->
             forall P : list dir * names_t -> list (stmt Z) * names_t -> Prop,
-            (forall ds nm' ss, Forall dir_ok ds -> names_ok nm' -> Forall2 stmt_equiv ss (map stmt_of_dir ds) ->
+            (forall ds nm' ss, Forall dir_ok ds -> names_ok2 nm' -> Forall2 stmt_equiv ss (map stmt_of_dir ds) ->
                  P (ds, nm') (ss, nm')) ->
             P (let '(ds, nm') := feed nm cs in (d :: ds, nm')) (let '(ss, nm') := expected nm cs in (s :: ss, nm'))).
   { intros d s Hd Hs He _ P HP. destruct (IH nm Hnm) as (I1 & I2 & I3 & I4).
     destruct (feed nm cs) as [ds nm1]. destruct (expected nm cs) as [ss nm2]. simpl in *. subst nm2.
     apply HP; [constructor; assumption | assumption | constructor; assumption]. }
   pose (P := fun (x : list dir * names_t) (y : list (stmt Z) * names_t) =>
-               Forall dir_ok (fst x) /\ names_ok (snd x) /\ snd x = snd y /\ Forall2 stmt_equiv (fst y) (map stmt_of_dir (fst x))).
-  assert (HP : forall ds nm' ss, Forall dir_ok ds -> names_ok nm' -> Forall2 stmt_equiv ss (map stmt_of_dir ds) -> P (ds, nm') (ss, nm')).
+               Forall dir_ok (fst x) /\ names_ok2 (snd x) /\ snd x = snd y /\ Forall2 stmt_equiv (fst y) (map stmt_of_dir (fst x))).
+  assert (HP : forall ds nm' ss, Forall dir_ok ds -> names_ok2 nm' -> Forall2 stmt_equiv ss (map stmt_of_dir ds) -> P (ds, nm') (ss, nm')).
   { intros. unfold P. simpl. auto. }
-  destruct c; simpl in Hc; try contradiction; cbn [feed expected stmt_of_call].
+  destruct c; simpl in Hc; try contradiction; cbn [feed expected stmt_of_call]; try (now apply IH).
   - apply (Hcons (DRule ht head (WNormal body)) _ Hc eq_refl (stmt_equiv_refl _) I P HP).
   - destruct (wrule_ok ht head bound body Hc) as (d & E & Hd & He). rewrite E.
     apply (Hcons d _ Hd eq_refl He I P HP).
   - apply (Hcons (DMin lits prio) _ I eq_refl (stmt_equiv_refl _) I P HP).
   - apply (Hcons (DProject atoms) _ Hc eq_refl (stmt_equiv_refl _) I P HP).
   - destruct (name_target nm name cond) as [a|] eqn:E.
-    + apply IH. intros b s. simpl. destruct (b =? a); [intros H; inversion H; subst; exact Hc | apply Hnm].
+    + apply IH. intros b s. simpl. destruct (b =? a); [intros H; inversion H; subst; exists (PN s); split; [exact Hc | reflexivity] | apply Hnm].
     + destruct (IH nm Hnm) as (I1 & I2 & I3 & I4).
       destruct (feed nm cs) as [ds nm1]. destruct (expected nm cs) as [ss nm2]. simpl in *. subst nm2.
       repeat split; auto; try (constructor; [exact Hc | assumption]); try (constructor; [reflexivity | assumption]).
@@ -142,33 +150,83 @@ Proof.
   - apply (Hcons (DEdge s t cond) _ I eq_refl (stmt_equiv_refl _) I P HP).
 Qed.
 
-(* the model run over the directive calls of a step *)
-Lemma run_feed cs : Forall call_ok cs -> forall s rest,
-  run_calls s (cs ++ rest) =
-  run_calls (mkW (snd (feed (names s) cs)) (dirs s ++ fst (feed (names s) cs)) (conds s) (step s) (out s)
-                 (terms s) (elems s) (tatoms s) (f_atom s) (f_term s) (f_elem s)) rest.
+(* the model run over the calls of a step: no exception; names / buffer as computed by feed; step and text unchanged *)
+Lemma store_free {A} (l : list (option A)) fr id (x : A) : slot_free l fr id -> store l fr id x = Ok (set_nth l (Z.to_nat id) x).
 Proof.
-  induction 1 as [|c cs Hc Hcs IH]; intros [nm ds cd st o tm el ta fa ft fe] rest.
-  - cbn. now rewrite app_nil_r.
-  - assert (Hcons : forall d, do_call (mkW nm ds cd st o tm el ta fa ft fe) c = (Ok tt, mkW nm (ds ++ [d]) cd st o tm el ta fa ft fe) ->
-              run_calls (mkW nm ds cd st o tm el ta fa ft fe) ((c :: cs) ++ rest) =
-              run_calls (mkW (snd (feed nm cs)) (ds ++ d :: fst (feed nm cs)) cd st o tm el ta fa ft fe) rest).
-    { intros d E. rewrite <- app_comm_cons. cbn [run_calls]. rewrite E. rewrite (IH (mkW nm (ds ++ [d]) cd st o tm el ta fa ft fe) rest). cbn [names dirs conds step out terms elems tatoms f_atom f_term f_elem].
-      now rewrite <- app_assoc. }
-    destruct c; simpl in Hc; try contradiction; cbn [feed names dirs conds step out terms elems tatoms f_atom f_term f_elem].
-    + rewrite (Hcons (DRule ht head (WNormal body)) eq_refl). destruct (feed nm cs); reflexivity.
+  intros [_ H]. unfold store. destruct (nth_opt l id); [|reflexivity]. destruct H as [H|H]; [discriminate|].
+  destruct (Nat.leb_spec fr (Z.to_nat id)); [lia | reflexivity].
+Qed.
+
+Lemma calls_run cs : forall s, calls_okw s cs ->
+  fst (run_calls s cs) = 0 /\
+  let s1 := snd (run_calls s cs) in
+  names s1 = snd (feed (names s) cs) /\ dirs s1 = dirs s ++ fst (feed (names s) cs) /\ step s1 = step s /\ out s1 = out s.
+Proof.
+  induction cs as [|c cs IH]; intros s Hok.
+  - cbn. rewrite app_nil_r. repeat split.
+  - destruct Hok as [Hc Hr].
+    assert (Hstep : forall s', do_call s c = (Ok tt, s') ->
+              (fst (run_calls s' cs) = 0 /\
+               names (snd (run_calls s' cs)) = snd (feed (names s') cs) /\ dirs (snd (run_calls s' cs)) = dirs s' ++ fst (feed (names s') cs) /\
+               step (snd (run_calls s' cs)) = step s' /\ out (snd (run_calls s' cs)) = out s') /\
+              run_calls s (c :: cs) = run_calls s' cs).
+    { intros s' E. split; [apply IH; now rewrite E in Hr|]. cbn [run_calls]. now rewrite E. }
+    destruct s as [nm ds cd st o tm el ta fa ft fe].
+    destruct c as [inc| | |ht head body|ht head bound body|prio lits|atoms|name cond|a v|lits|a t bias prio cond|x y cond|id n|id sy|id c args|id tms cond|a t els|a t els op rhs];
+      cbn [tcall_okw tcall_ok call_ok] in Hc; try contradiction;
+      cbn [feed names dirs conds step out terms elems tatoms f_atom f_term f_elem] in *.
+    + destruct (Hstep _ eq_refl) as [(I1 & I3 & I4 & I5 & I6) ->]. unfold push, set_dirs in *. cbn [names dirs conds step out terms elems tatoms f_atom f_term f_elem] in *.
+      destruct (feed nm cs). cbn [fst snd] in *. rewrite I4, <- app_assoc. repeat split; assumption.
     + destruct (wrule_ok ht head bound body Hc) as (d & E & _). rewrite E.
-      rewrite (Hcons d); [destruct (feed nm cs); reflexivity|]. cbn [do_call lift]. rewrite E. reflexivity.
-    + rewrite (Hcons (DMin lits prio) eq_refl). destruct (feed nm cs); reflexivity.
-    + rewrite (Hcons (DProject atoms) eq_refl). destruct (feed nm cs); reflexivity.
+      assert (E' : do_call (mkW nm ds cd st o tm el ta fa ft fe) (CWRule ht head bound body) = (Ok tt, mkW nm (ds ++ [d]) cd st o tm el ta fa ft fe)).
+      { cbn [do_call lift]. rewrite E. reflexivity. }
+      destruct (Hstep _ E') as [(I1 & I3 & I4 & I5 & I6) ->]. cbn [names dirs step out] in *.
+      destruct (feed nm cs). cbn [fst snd] in *. rewrite I4, <- app_assoc. repeat split; assumption.
+    + destruct (Hstep _ eq_refl) as [(I1 & I3 & I4 & I5 & I6) ->]. unfold push, set_dirs in *. cbn [names dirs conds step out terms elems tatoms f_atom f_term f_elem] in *.
+      destruct (feed nm cs). cbn [fst snd] in *. rewrite I4, <- app_assoc. repeat split; assumption.
+    + destruct (Hstep _ eq_refl) as [(I1 & I3 & I4 & I5 & I6) ->]. unfold push, set_dirs in *. cbn [names dirs conds step out terms elems tatoms f_atom f_term f_elem] in *.
+      destruct (feed nm cs). cbn [fst snd] in *. rewrite I4, <- app_assoc. repeat split; assumption.
     + destruct (name_target nm name cond) as [a|] eqn:E.
-      * rewrite <- app_comm_cons. cbn [run_calls do_call lift names]. rewrite E. cbn [lift set_names names dirs conds step out terms elems tatoms f_atom f_term f_elem]. rewrite IH. reflexivity.
-      * rewrite (Hcons (DOutput name cond)); [destruct (feed nm cs); reflexivity|].
-        cbn [do_call lift names]. rewrite E. reflexivity.
-    + rewrite (Hcons (DExternal a v) eq_refl). destruct (feed nm cs); reflexivity.
-    + rewrite (Hcons (DAssume lits) eq_refl). destruct (feed nm cs); reflexivity.
-    + rewrite (Hcons (DHeu a cond bias prio t) eq_refl). destruct (feed nm cs); reflexivity.
-    + rewrite (Hcons (DEdge s t cond) eq_refl). destruct (feed nm cs); reflexivity.
+      * assert (E' : do_call (mkW nm ds cd st o tm el ta fa ft fe) (COutput name cond) = (Ok tt, mkW ((a, name) :: nm) ds cd st o tm el ta fa ft fe)).
+        { cbn [do_call lift names]. rewrite E. reflexivity. }
+        destruct (Hstep _ E') as [(I1 & I3 & I4 & I5 & I6) ->]. cbn [names dirs step out] in *.
+        repeat split; assumption.
+      * assert (E' : do_call (mkW nm ds cd st o tm el ta fa ft fe) (COutput name cond) = (Ok tt, mkW nm (ds ++ [DOutput name cond]) cd st o tm el ta fa ft fe)).
+        { cbn [do_call lift names]. rewrite E. reflexivity. }
+        destruct (Hstep _ E') as [(I1 & I3 & I4 & I5 & I6) ->]. cbn [names dirs step out] in *.
+        destruct (feed nm cs). cbn [fst snd] in *. rewrite I4, <- app_assoc. repeat split; assumption.
+    + destruct (Hstep _ eq_refl) as [(I1 & I3 & I4 & I5 & I6) ->]. unfold push, set_dirs in *. cbn [names dirs conds step out terms elems tatoms f_atom f_term f_elem] in *.
+      destruct (feed nm cs). cbn [fst snd] in *. rewrite I4, <- app_assoc. repeat split; assumption.
+    + destruct (Hstep _ eq_refl) as [(I1 & I3 & I4 & I5 & I6) ->]. unfold push, set_dirs in *. cbn [names dirs conds step out terms elems tatoms f_atom f_term f_elem] in *.
+      destruct (feed nm cs). cbn [fst snd] in *. rewrite I4, <- app_assoc. repeat split; assumption.
+    + destruct (Hstep _ eq_refl) as [(I1 & I3 & I4 & I5 & I6) ->]. unfold push, set_dirs in *. cbn [names dirs conds step out terms elems tatoms f_atom f_term f_elem] in *.
+      destruct (feed nm cs). cbn [fst snd] in *. rewrite I4, <- app_assoc. repeat split; assumption.
+    + destruct (Hstep _ eq_refl) as [(I1 & I3 & I4 & I5 & I6) ->]. unfold push, set_dirs in *. cbn [names dirs conds step out terms elems tatoms f_atom f_term f_elem] in *.
+      destruct (feed nm cs). cbn [fst snd] in *. rewrite I4, <- app_assoc. repeat split; assumption.
+    + (* theoryTerm number *)
+      assert (E' : do_call (mkW nm ds cd st o tm el ta fa ft fe) (CTNum id n) = (Ok tt, mkW nm ds cd st o (set_nth tm (Z.to_nat id) (TNum n)) el ta fa ft fe)).
+      { cbn [do_call lift terms f_term]. rewrite (store_free tm ft id (TNum n) Hc). reflexivity. }
+      destruct (Hstep _ E') as [(I1 & I3 & I4 & I5 & I6) ->]. cbn [names dirs step out] in *. repeat split; assumption.
+    + assert (E' : do_call (mkW nm ds cd st o tm el ta fa ft fe) (CTSym id sy) = (Ok tt, mkW nm ds cd st o (set_nth tm (Z.to_nat id) (TSym sy)) el ta fa ft fe)).
+      { cbn [do_call lift terms f_term]. rewrite (store_free tm ft id (TSym sy) Hc). reflexivity. }
+      destruct (Hstep _ E') as [(I1 & I3 & I4 & I5 & I6) ->]. cbn [names dirs step out] in *. repeat split; assumption.
+    + assert (E' : do_call (mkW nm ds cd st o tm el ta fa ft fe) (CTComp id c args) = (Ok tt, mkW nm ds cd st o (set_nth tm (Z.to_nat id) (TComp c args)) el ta fa ft fe)).
+      { cbn [do_call lift terms f_term]. rewrite (store_free tm ft id (TComp c args) Hc). reflexivity. }
+      destruct (Hstep _ E') as [(I1 & I3 & I4 & I5 & I6) ->]. cbn [names dirs step out] in *. repeat split; assumption.
+    + destruct (add_condition cd cond) as [cs' cid] eqn:Ec.
+      assert (E' : do_call (mkW nm ds cd st o tm el ta fa ft fe) (CTElem id tms cond) = (Ok tt, mkW nm ds cs' st o tm (set_nth el (Z.to_nat id) (mkE tms cid)) ta fa ft fe)).
+      { cbn [do_call lift conds elems f_elem]. rewrite Ec. rewrite (store_free el fe id (mkE tms cid) Hc). reflexivity. }
+      destruct (Hstep _ E') as [(I1 & I3 & I4 & I5 & I6) ->]. cbn [names dirs step out] in *. repeat split; assumption.
+    + destruct (Hstep _ eq_refl) as [(I1 & I3 & I4 & I5 & I6) ->]. cbn [names dirs step out] in *. repeat split; assumption.
+    + destruct (Hstep _ eq_refl) as [(I1 & I3 & I4 & I5 & I6) ->]. cbn [names dirs step out] in *. repeat split; assumption.
+Qed.
+
+Lemma calls_ok_w cs : forall s, calls_ok s cs -> calls_okw s cs.
+Proof. induction cs as [|c cs IH]; intros s H; [exact I|]. destruct H as [H1 H2]. split; [destruct c; try exact H1; exact I | now apply IH]. Qed.
+Lemma calls_ok_dcall cs : forall s, calls_ok s cs -> Forall dcall_ok cs.
+Proof.
+  induction cs as [|c cs IH]; intros s H; [constructor|]. destruct H as [H1 H2]. constructor; [|now apply (IH _ H2)].
+  destruct c; cbn [tcall_ok dcall_ok] in *; try exact H1; exact I.
 Qed.
 
 (* ---------- the step header comment is skipped ---------- *)
@@ -210,47 +268,144 @@ Proof.
   pose proof (render_dir_ne nm d). destruct (render_dir nm d); [congruence|]. simpl. unfold render_dirs in IH. lia.
 Qed.
 
-(* ---------- one whole step ---------- *)
-Lemma step_run s cs : Forall call_ok cs -> names_ok (names s) -> dirs s = [] -> tatoms s = [] ->
-  let ds := fst (feed (names s) cs) in
-  let nm' := snd (feed (names s) cs) in
-  exists s', run_calls s (CBegin :: cs ++ [CEnd]) = (0, s') /\ names s' = nm' /\ dirs s' = [] /\ tatoms s' = [] /\
-             out s' = out s ++ step_header s ++ render_dirs nm' ds.
+(* ---------- what the parser reads for an atom ---------- *)
+Lemma p_name_self p : pok p -> p_name (show p) = Some (p, []).
+Proof. intros Hp. pose proof (p_name_show p [] Hp I (or_intror I)) as P. now rewrite app_nil_r in P. Qed.
+Lemma sem_ok nm : names_ok2 nm -> forall a, 0 <= a -> pok (sem nm a) /\ name_of nm a = show (sem nm a).
 Proof.
-  intros Hcs Hnm Hd Hth ds nm'. cbn [run_calls do_call lift]. rewrite (run_feed cs Hcs).
-  cbn [run_calls do_call]. unfold end_step.
-  cbn [names dirs conds step out terms elems tatoms f_atom f_term f_elem].
-  assert (Ht : tatoms (begin_step s) = tatoms s) by (unfold begin_step; destruct (0 <=? step s); [destruct (step s =? 0)|]; reflexivity).
-  assert (Hdd : dirs (begin_step s) = []) by (unfold begin_step; destruct (0 <=? step s); [destruct (step s =? 0)|]; exact Hd).
-  assert (Hnn : names (begin_step s) = names s) by (unfold begin_step; destruct (0 <=? step s); [destruct (step s =? 0)|]; reflexivity).
-  assert (Ho : out (begin_step s) = out s ++ step_header s).
-  { unfold begin_step, step_header. destruct (0 <=? step s); [destruct (step s =? 0)|]; cbn [out]; try reflexivity. now rewrite app_nil_r. }
-  rewrite Ht, Hth, Hdd, Hnn, Ho. rewrite skipn_nil. cbn [visit app].
-  fold ds. fold nm'.
-  destruct (step (begin_step s) <? 0); eexists; (split; [reflexivity|]); cbn [names dirs out tatoms]; rewrite <- app_assoc; auto.
+  intros H a Ha. unfold sem, name_of. destruct (lookup a nm) as [s|] eqn:E.
+  - destruct (H a s E) as (p & Hp & ->). rewrite (p_name_self p Hp). auto.
+  - split; [now apply xname_good | reflexivity].
 Qed.
 
+(* ---------- the statements of the directive theory atoms ---------- *)
+Definition zero_atoms (l : list tatom) : list tatom := filter (fun a => ta_atom a =? 0) l.
+Lemma p_stmts_step m c r : is_ws c = false -> c <> 37 ->
+  p_stmts (S m) (c :: r) = match p_stmt (c :: r) with
+                           | Some (s, r') => match p_stmts m r' with Some ss => Some (s :: ss) | None => None end
+                           | None => None
+                           end.
+Proof. intros Hw Hc. cbn [p_stmts skipws]. rewrite Hw. destruct (Z.eqb_spec c 37); [contradiction | reflexivity]. Qed.
+Lemma p_stmts_nl m r : p_stmts m (s_nl ++ r) = p_stmts m r.
+Proof. destruct m; reflexivity. Qed.
+
+Lemma p_stmts_tx s1 nm1 rest l : (forall a, In a l -> unamb_ta (tat s1 nm1 a) = true) ->
+  forall n, p_stmts (length (zero_atoms l) + n) (tx s1 nm1 l ++ rest) =
+            match p_stmts n rest with
+            | Some ss => Some (map (fun a => SRule false [PT (tat s1 nm1 a)] (BNormal [])) (zero_atoms l) ++ ss)
+            | None => None
+            end.
+Proof.
+  induction l as [|a l IH]; intros Hu n.
+  - cbn. destruct (p_stmts n rest); reflexivity.
+  - cbn [tx zero_atoms filter]. specialize (IH (fun b Hb => Hu b (or_intror Hb)) n).
+    destruct (ta_atom a =? 0).
+    + cbn [length map app]. rewrite <- !app_assoc.
+      assert (E : exists r, show_ta (tat s1 nm1 a) ++ s_theory_end ++ tx s1 nm1 l ++ rest = 38 :: r) by (eexists; reflexivity).
+      destruct E as [r E]. cbn [plus]. rewrite E, p_stmts_step by (reflexivity || discriminate). rewrite <- E.
+      change s_theory_end with (s_dot ++ s_nl). rewrite <- app_assoc.
+      change (show_ta (tat s1 nm1 a)) with (show (PT (tat s1 nm1 a))).
+      rewrite (p_stmt_fact (PT (tat s1 nm1 a)) (tx s1 nm1 l ++ rest) (Hu a (or_introl eq_refl))).
+      rewrite p_stmts_nl. fold (zero_atoms l). rewrite IH. destruct (p_stmts n rest); reflexivity.
+    + cbn [app]. exact IH.
+Qed.
+Lemma tx_len s1 nm1 l : (length (zero_atoms l) <= length (tx s1 nm1 l))%nat.
+Proof.
+  induction l as [|a l IH]; [simpl; lia|]. cbn [tx zero_atoms filter]. destruct (ta_atom a =? 0); [|exact IH].
+  cbn [length]. rewrite !app_length. change (length s_theory_end) with 2%nat. fold (zero_atoms l). lia.
+Qed.
+
+Lemma run_calls_app a : forall s b, run_calls s (a ++ b) =
+  let '(st, s') := run_calls s a in if st =? 0 then run_calls s' b else (st, s').
+Proof.
+  induction a as [|c a IH]; intros s b; [reflexivity|].
+  cbn [app run_calls]. destruct (do_call s c) as [[[]| |] s1]; [apply IH | reflexivity | reflexivity].
+Qed.
+
+(* ---------- one whole step ---------- *)
+Lemma begin_facts s : names (begin_step s) = names s /\ dirs (begin_step s) = dirs s /\ out (begin_step s) = out s ++ step_header s.
+Proof.
+  unfold begin_step, step_header. destruct (0 <=? step s); [destruct (step s =? 0)|]; cbn [names dirs out]; repeat split; try reflexivity.
+  now rewrite app_nil_r.
+Qed.
 Lemma header_len s : 0 <=? step s = true -> (0 < length (step_header s))%nat.
 Proof.
   intros H. unfold step_header. rewrite H. destruct (step s =? 0); [simpl; lia|]. rewrite app_length. simpl. lia.
 Qed.
 
-Lemma step_parse s cs : Forall call_ok cs -> names_ok (names s) -> dirs s = [] -> tatoms s = [] ->
+(* the run of a step up to the point where endStep has visited the theory atoms *)
+Lemma end_step_names s1 nm' o' : visit s1 (names s1) (out s1) (skipn (f_atom s1) (tatoms s1)) = (Ok nm', o') ->
+  exists s', end_step s1 = (Ok tt, s') /\ names s' = nm' /\ dirs s' = [] /\ out s' = o' ++ render_dirs nm' (dirs s1).
+Proof.
+  intros V. unfold end_step. rewrite V. destruct (step s1 <? 0); eexists; (split; [reflexivity|]); cbn [names dirs out]; auto.
+Qed.
+
+Lemma step_parse s cs : names_ok2 (names s) -> dirs s = [] -> calls_ok (begin_step s) cs ->
+  let s1 := snd (run_calls (begin_step s) cs) in
+  frame_ok s1 ->
   exists s' txt ss,
     run_calls s (CBegin :: cs ++ [CEnd]) = (0, s') /\ out s' = out s ++ txt /\
-    names s' = snd (expected (names s) cs) /\
-    ref_parse txt = Some (map (map_stmt (name_of (names s'))) ss) /\
+    ref_parse txt = Some (tstmts s1 ++ map (map_stmt (sem (names s'))) ss) /\
     Forall2 stmt_equiv (fst (expected (names s) cs)) ss /\
-    names_ok (names s') /\ dirs s' = [] /\ tatoms s' = [].
+    (forall a, 0 <= a -> pok (sem (names s') a) /\ name_of (names s') a = show (sem (names s') a)) /\
+    (forall ta, In ta (frame s1) -> ta_atom ta <> 0 -> sem (names s') (ta_atom ta) = PT (tat s1 (names s1) ta)) /\
+    (forall a, ~ In a (frame_atoms s1) -> lookup a (names s') = lookup a (snd (expected (names s) cs))) /\
+    names_ok2 (names s') /\ dirs s' = [].
 Proof.
-  intros Hcs Hnm Hd Hth. destruct (step_run s cs Hcs Hnm Hd Hth) as (s' & Hrun & Hn & Hd' & Ht' & Ho).
-  destruct (feed_spec cs Hcs (names s) Hnm) as (F1 & F2 & F3 & F4).
-  exists s', (step_header s ++ render_dirs (names s') (fst (feed (names s) cs))), (map stmt_of_dir (fst (feed (names s) cs))).
-  rewrite Hn in *. repeat split; try assumption.
-  unfold ref_parse. rewrite p_stmts_header.
-  apply p_stmts_dirs; [now apply names_ok_good | assumption |].
-  pose proof (render_dirs_len (snd (feed (names s) cs)) (fst (feed (names s) cs))) as HL.
-  rewrite app_length. destruct (0 <=? step s) eqn:E; [pose proof (header_len s E)|]; lia.
+  intros Hnm Hd Hok s1 Hfr. set (s0 := begin_step s) in *.
+  destruct (calls_run cs s0 (calls_ok_w cs s0 Hok)) as (R0 & Rn & Rdirs & Rstep & Rout). fold s1 in Rn, Rdirs, Rstep, Rout.
+  pose proof (calls_ok_dcall cs s0 Hok) as Rd.
+  destruct (begin_facts s) as (B1 & B2 & B3). fold s0 in B1, B2, B3. rewrite B1 in Rn, Rdirs. rewrite B2, Hd in Rdirs. cbn [app] in Rdirs. rewrite B3 in Rout.
+  destruct (feed_spec cs Rd (names s) Hnm) as (F1 & F2 & F3 & F4).
+  destruct Hfr as [W1 W2 W3 W4 W5].
+  set (nm1 := names s1) in *. set (fr := frame s1) in *.
+  assert (Htat : forall a, In a fr -> tatom_of s1 nm1 a = Some (tat s1 nm1 a) /\ unamb_ta (tat s1 nm1 a) = true).
+  { intros a Ha. destruct (W1 a Ha) as (ta & E & U). unfold tat. rewrite E. auto. }
+  (* visitTheories *)
+  assert (V : visit s1 nm1 (out s1) fr = (Ok (tn s1 nm1 fr [] ++ nm1), out s1 ++ tx s1 nm1 fr)).
+  { apply (visit_spec s1 nm1 fr [] (out s1)).
+    - intros a Ha. destruct (Htat a Ha) as [E _]. rewrite E. discriminate.
+    - intros c Hc. split; [intros []|]. now apply W2.
+    - intros a Ha. split; [now apply W3 | intros []].
+    - exact W4. }
+  set (nm' := tn s1 nm1 fr [] ++ nm1) in *.
+  destruct (end_step_names s1 nm' _ V) as (s' & Eend & En' & Ed' & Eo').
+  (* the final name table *)
+  assert (Hkeys : forall a, ~ In a (frame_atoms s1) -> lookup a nm' = lookup a nm1).
+  { intros a Ha. apply lookup_app_notin. intros Hin. destruct (tn_keys s1 nm1 fr [] a Hin) as [[]|H]. now apply Ha. }
+  assert (Hnm' : names_ok2 nm').
+  { intros a n E. unfold nm' in E. rewrite lookup_app_cases in E.
+    destruct (lookup a (tn s1 nm1 fr [])) as [n0|] eqn:E0.
+    - inversion E; subst n0. destruct (tn_entries s1 nm1 fr [] a n (lookup_in _ _ _ E0)) as [[]|(b & B1' & B2' & -> & ->)].
+      destruct (Htat b B1') as [_ U]. exists (PT (tat s1 nm1 b)). split; [exact U | reflexivity].
+    - rewrite Rn in E. now apply (F2 a). }
+  pose proof (sem_ok nm' Hnm') as Hnu.
+  assert (Htheory : forall ta, In ta fr -> ta_atom ta <> 0 -> sem nm' (ta_atom ta) = PT (tat s1 nm1 ta)).
+  { intros ta Hin Hz. unfold sem, nm'.
+    rewrite (lookup_app_l _ nm1 _ (show_ta (tat s1 nm1 ta))).
+    - change (show_ta (tat s1 nm1 ta)) with (show (PT (tat s1 nm1 ta))). rewrite p_name_self; [reflexivity|]. now apply Htat.
+    - apply tn_lookup; try assumption; [intros [] |]. intros b Hb Eb. now apply (nz_uniq fr W4 ta b). }
+  assert (Hplain : Forall (dir_plain (sem nm')) (dirs s1)).
+  { apply Forall_forall. intros d Hdin a Ha. destruct (W5 d a Hdin Ha) as [P1 P2]. unfold sem. rewrite (Hkeys a P1).
+    destruct (lookup a nm1) as [n|] eqn:E; [|exact I]. specialize (P2 n E). change n with (show (PN n)) at 1. rewrite p_name_self by exact P2. exact I. }
+  exists s', (step_header s ++ tx s1 nm1 fr ++ render_dirs nm' (dirs s1)), (map stmt_of_dir (fst (feed (names s) cs))).
+  rewrite En'. split; [|split; [|split; [|split; [exact F4|split; [exact Hnu|split; [exact Htheory|split; [|split; [exact Hnm' | exact Ed']]]]]]]].
+  - (* the run *)
+    cbn [run_calls do_call lift]. fold s0. rewrite run_calls_app.
+    rewrite (surjective_pairing (run_calls s0 cs)), R0. fold s1. change (0 =? 0) with true. cbv iota.
+    cbn [run_calls do_call]. rewrite Eend. reflexivity.
+  - rewrite Eo', Rout, <- !app_assoc. reflexivity.
+  - (* parse back *)
+    unfold ref_parse. rewrite p_stmts_header.
+    set (m := if 0 <=? step s then length (step_header s ++ tx s1 nm1 fr ++ render_dirs nm' (dirs s1)) else S (length (step_header s ++ tx s1 nm1 fr ++ render_dirs nm' (dirs s1)))).
+    assert (Hm : (length (zero_atoms fr) + length (dirs s1) < m)%nat).
+    { unfold m. rewrite !app_length. pose proof (tx_len s1 nm1 fr). pose proof (render_dirs_len nm' (dirs s1)).
+      destruct (0 <=? step s) eqn:E; [pose proof (header_len s E)|]; lia. }
+    replace m with (length (zero_atoms fr) + (m - length (zero_atoms fr)))%nat by lia.
+    rewrite p_stmts_tx by (intros a Ha; now apply Htat).
+    rewrite (p_stmts_dirs nm' (sem nm') Hnu (dirs s1)); [| rewrite Rdirs; exact F1 | exact Hplain | lia].
+    rewrite Rdirs. reflexivity.
+  - intros a Ha. rewrite (Hkeys a Ha). now rewrite Rn, F3.
 Qed.
 
 (* ---------- every output directive is represented ---------- *)
@@ -290,29 +445,49 @@ Proof.
     destruct (name_target nm name cond); [now apply IH | apply G].
 Qed.
 
-(* ---------- whole (theory-free) programs never fail ---------- *)
-Lemma run_calls_app a : forall s b, run_calls s (a ++ b) =
-  let '(st, s') := run_calls s a in if st =? 0 then run_calls s' b else (st, s').
-Proof.
-  induction a as [|c a IH]; intros s b; [reflexivity|].
-  cbn [app run_calls]. destruct (do_call s c) as [[[]| |] s1]; [apply IH | reflexivity | reflexivity].
-Qed.
-
+(* ---------- whole programs never fail ---------- *)
 Definition program_calls (inc : bool) (steps : list (list call)) : list call :=
   CInit inc :: flat_map (fun cs => CBegin :: cs ++ [CEnd]) steps.
 
-Lemma steps_total steps : Forall (Forall call_ok) steps -> forall s,
-  names_ok (names s) -> dirs s = [] -> tatoms s = [] ->
-  fst (run_calls s (flat_map (fun cs => CBegin :: cs ++ [CEnd]) steps)) = 0.
+(* one step of a valid program: no exception, no fault *)
+Lemma step_total s cs : calls_okw (begin_step s) cs -> frame_valid (snd (run_calls (begin_step s) cs)) ->
+  fst (run_calls s (CBegin :: cs ++ [CEnd])) = 0.
 Proof.
-  induction 1 as [|cs steps Hcs Hst IH]; intros s H1 H2 H3; [reflexivity|].
-  cbn [flat_map]. rewrite run_calls_app.
-  destruct (step_parse s cs Hcs H1 H2 H3) as (s' & txt & ss & Hrun & _ & _ & _ & _ & I1 & I2 & I3).
-  rewrite Hrun. cbn. now apply IH.
+  intros Hok Hfr. set (s0 := begin_step s) in *. set (s1 := snd (run_calls s0 cs)) in *.
+  destruct (calls_run cs s0 Hok) as (R0 & _). destruct Hfr as [W1 W3 W4].
+  destruct (visit_total s1 (names s1) (frame s1) (names s1) (out s1)) as (nm' & o' & V).
+  - intros a Ha. destruct (tatom_consistent_of s1 (names s1) a (W1 a Ha)) as (ta & ->). discriminate.
+  - exact W3.
+  - exact W4.
+  - destruct (end_step_names s1 nm' o' V) as (s' & Eend & _).
+    cbn [run_calls do_call lift]. fold s0. rewrite run_calls_app.
+    rewrite (surjective_pairing (run_calls s0 cs)), R0. fold s1. change (0 =? 0) with true. cbv iota.
+    cbn [run_calls do_call]. rewrite Eend. reflexivity.
 Qed.
 
-Lemma program_total inc steps : Forall (Forall call_ok) steps -> fst (run_calls init_st (program_calls inc steps)) = 0.
+(* the steps of a valid program, each judged in the state it starts in *)
+Fixpoint steps_ok (s : wst) (steps : list (list call)) : Prop :=
+  match steps with
+  | [] => True
+  | cs :: r => calls_okw (begin_step s) cs /\ frame_valid (snd (run_calls (begin_step s) cs)) /\
+               steps_ok (snd (run_calls s (CBegin :: cs ++ [CEnd]))) r
+  end.
+
+Lemma steps_total steps : forall s, steps_ok s steps ->
+  fst (run_calls s (flat_map (fun cs => CBegin :: cs ++ [CEnd]) steps)) = 0.
 Proof.
-  intros H. unfold program_calls. cbn [run_calls do_call lift]. apply steps_total; [assumption | | reflexivity | reflexivity].
-  intros a s E. discriminate.
+  induction steps as [|cs steps IH]; intros s H; [reflexivity|]. destruct H as (H1 & H2 & H3).
+  cbn [flat_map]. rewrite run_calls_app. pose proof (step_total s cs H1 H2) as E.
+  rewrite (surjective_pairing (run_calls s (CBegin :: cs ++ [CEnd]))), E. change (0 =? 0) with true. cbv iota. now apply IH.
+Qed.
+
+Lemma program_total inc steps : steps_ok (snd (do_call init_st (CInit inc))) steps ->
+  fst (run_calls init_st (program_calls inc steps)) = 0.
+Proof. intros H. unfold program_calls. cbn [run_calls do_call lift]. now apply steps_total. Qed.
+
+(* theory-free programs: validity of the calls is all that is needed (the earlier, weaker theorem) *)
+Lemma calls_ok_plain cs : Forall call_ok cs -> forall s, calls_ok s cs.
+Proof.
+  induction 1 as [|c cs Hc Hcs IH]; intros s; [exact I|]. split; [|apply IH].
+  destruct c; simpl in Hc; try contradiction; exact Hc.
 Qed.
